@@ -505,3 +505,26 @@ def make_table(draw, zkey, v0, io, vi, lo, hi, cap=None, min_step=0.05, dims=Non
             row.append(v)
         rows.append(row)
     return {"vi": vis, "io": ios, zkey: rows}
+
+
+def topo_order_from_priority(spec, prio):
+    """A topological insertion order (first node a Source) chosen by priorities."""
+    nodes = spec["nodes"]
+    placed, order = set(), []
+    remaining = list(range(len(nodes)))
+    while remaining:
+        avail = [i for i in remaining if all(p in placed for p in nodes[i]["parents"])]
+        if not order:
+            avail = [i for i in avail if nodes[i]["kind"] == "Source"]
+        best = min(avail, key=lambda i: prio[i])
+        order.append(best)
+        placed.add(nodes[best]["name"])
+        remaining.remove(best)
+    return order
+
+
+@st.composite
+def system_with_order(draw, opts):
+    spec = draw(systems(opts))
+    prio = draw(st.permutations(list(range(len(spec["nodes"])))))
+    return {"spec": spec, "order": topo_order_from_priority(spec, prio)}
